@@ -211,9 +211,105 @@ type gwDisabled struct {
 // groupStructRepairWitnesses: regression witnesses of two repaired defects of struct mapping
 // (c874f9b: fields promoted through an embedded struct pointer; e915fbc: the zero value of a
 // disabled property on a non-pointer field was serialized and then refused by Unserialize).
+type gwDriver struct {
+	Retries int64 `json:"retries"`
+	Pool    int64 `json:"pool"`
+}
+
+type gwConn struct {
+	Driver gwDriver `json:"driver"`
+	Host   *string  `json:"host"`
+}
+
+type gwService struct {
+	Connection gwConn `json:"connection"`
+	Replicas   *int64 `json:"replicas"`
+}
+
+// gwNamespacedDefaults: the defaults of sub-objects are filled in through references into ANOTHER namespace
+// as well, and an object is "the same object" only if it is the same schema value: two scopes may both call
+// an object `Connection`. The application's Connection holds (in a plain struct field) a reference to the
+// library's Connection, whose defaults do not have valid zero values; the input leaves everything out.
+func gwNamespacedDefaults(libID string, wrap string) hx.Result {
+	opt := func(t schema.Type, def *string) *schema.PropertySchema {
+		return schema.NewPropertySchema(t, nil, false, nil, nil, nil, def, nil)
+	}
+	three, eight := "3", "8"
+	lib := schema.NewScopeSchema(schema.NewStructMappedObjectSchema[gwDriver](libID, map[string]*schema.PropertySchema{
+		"retries": opt(schema.NewIntSchema(sp(int64(1)), nil, nil), &three),
+		"pool":    opt(schema.NewIntSchema(sp(int64(1)), nil, nil), &eight)}))
+	app := schema.NewScopeSchema(
+		schema.NewStructMappedObjectSchema[gwService]("Service", map[string]*schema.PropertySchema{
+			"connection": opt(schema.NewRefSchema("Connection", nil), nil),
+			"replicas":   opt(schema.NewIntSchema(nil, nil, nil), nil)}),
+		schema.NewStructMappedObjectSchema[gwConn]("Connection", map[string]*schema.PropertySchema{
+			"driver": opt(schema.NewNamespacedRefSchema(libID, "lib", nil), nil),
+			"host":   opt(schema.NewStringSchema(nil, nil, nil), nil)}))
+	app.ApplyNamespace(lib.Objects(), "lib")
+	if err := app.ValidateReferences(); err != nil {
+		return hx.Result{R: "err", Msg: "references not linked: " + err.Error()}
+	}
+	var sch schema.Type = app
+	var in any = map[string]any{}
+	want := gwService{Connection: gwConn{Driver: gwDriver{Retries: 3, Pool: 8}}}
+	unwrap := func(v any) any { return v }
+	switch wrap {
+	case "list":
+		sch = schema.NewListSchema(app, nil, nil)
+		in = []any{map[string]any{}}
+		unwrap = func(v any) any {
+			if l, ok := v.([]gwService); ok && len(l) == 1 {
+				return l[0]
+			}
+			return v
+		}
+	case "replicas":
+		in = map[string]any{"replicas": 3}
+		n := int64(3)
+		want.Replicas = &n
+	}
+	v, err := sch.Unserialize(in)
+	if err != nil {
+		return hx.Result{R: "err", Msg: "valid input rejected: " + err.Error()}
+	}
+	got, ok := unwrap(v).(gwService)
+	if !ok || got.Connection != want.Connection || (got.Replicas == nil) != (want.Replicas == nil) {
+		return hx.Result{R: "err", Msg: fmt.Sprintf("the defaults of the library's object were not filled in: got %+v, want %+v", unwrap(v), want)}
+	}
+	if err := sch.Validate(v); err != nil {
+		return hx.Result{R: "err", Msg: "Validate rejects what Unserialize returned: " + err.Error()}
+	}
+	w, err := sch.Serialize(v)
+	if err != nil {
+		return hx.Result{R: "err", Msg: "Serialize rejects what Unserialize returned: " + err.Error()}
+	}
+	v2, err := sch.Unserialize(w)
+	if err != nil {
+		return hx.Result{R: "err", Msg: "Unserialize rejects the serialized form: " + err.Error()}
+	}
+	if g2, ok := unwrap(v2).(gwService); !ok || g2.Connection != got.Connection {
+		return hx.Result{R: "err", Msg: fmt.Sprintf("Unserialize(Serialize(v)) = %+v differs from v = %+v", v2, v)}
+	}
+	return hx.Result{R: "ok"}
+}
+
 func groupStructRepairWitnesses(s *sink) {
 	opt := func(t schema.Type) *schema.PropertySchema {
 		return schema.NewPropertySchema(t, nil, false, nil, nil, nil, nil, nil)
+	}
+	for _, libID := range []string{"Connection", "DriverConnection", "Service"} {
+		for _, wrap := range []string{"", "list", "replicas"} {
+			libID, wrap := libID, wrap
+			r := hx.Guard(func() hx.Result { return gwNamespacedDefaults(libID, wrap) })
+			s.stats["gowitness:namespaced-defaults"]++
+			what := fmt.Sprintf("struct-mapped objects across namespaces (library object %q referenced from the application's object \"Connection\", %s)", libID, wrap)
+			if r.R == "panic" {
+				s.finding(Finding{Prop: "C04", What: what + " panicked: " + r.Msg})
+			} else if r.R != "ok" {
+				s.finding(Finding{Prop: "C01", What: what + ": " + r.Msg})
+				s.finding(Finding{Prop: "C14", What: what + ": " + r.Msg})
+			}
+		}
 	}
 	r := hx.Guard(func() hx.Result {
 		o := schema.NewStructMappedObjectSchema[gwEmbOuter]("Outer", map[string]*schema.PropertySchema{
